@@ -67,6 +67,26 @@ func c13Pool(kind string, variant string) []ap.Item {
 		return []ap.Item{ap.IRI(ids[0]), &ap.Object{ID: ap.IRI(ids[1]), Type: ap.NoteType}, ap.IRI(ids[2]), &ap.Actor{ID: ap.IRI(ids[3]), Type: ap.PersonType}, ap.IRI(ids[4]),
 			&ap.Object{ID: ap.IRI(ids[5]), Type: ap.ArticleType}}
 	}
+	if strings.HasPrefix(variant, "twin") && kind != "IRIs" {
+		// members of one type that hold the same in every property (the same shared inbox, the same first page, the same subject) and
+		// differ in their ids only: different members all the same
+		k := 0
+		fmt.Sscan(variant[4:], &k)
+		var types []reflect.Type
+		for _, st := range vocab.StructTypes {
+			if st.Name() != "Link" {
+				types = append(types, st)
+			}
+		}
+		st := types[k%len(types)]
+		var out []ap.Item
+		for i := 0; i < 6; i++ {
+			x := vocab.Everything(st, false)
+			reflect.ValueOf(x).Elem().FieldByName("ID").SetString(fmt.Sprintf("https://example.com/twins/%s/%d", strings.ToLower(st.Name()), i))
+			out = append(out, x)
+		}
+		return out
+	}
 	if strings.HasPrefix(variant, "rich") && kind != "IRIs" {
 		// members that hold everything their type can hold (pages with prev/next/first/last/partOf, questions with options, places,
 		// relationships ...), one of them nested in a property of a plain object: membership is full equality of such members
@@ -143,6 +163,9 @@ func c13KindVariants() [][2]string {
 		if k != "IRIs" {
 			for _, v := range []string{"rich0", "rich1", "rich2", "rich3", "rich4"} {
 				out = append(out, [2]string{k, v})
+			}
+			for i := 0; i < 13; i++ {
+				out = append(out, [2]string{k, fmt.Sprintf("twin%d", i)})
 			}
 		}
 	}
@@ -278,7 +301,7 @@ func c13NonTrivial(hist []c13Op) bool {
 func TestC13(t *testing.T) {
 	r := ev.Open(t, "C13")
 	defer r.Close(t)
-	r.Rule("histories over a pool of items with pairwise non-equivalent ids in mixed shapes (IRI, Object, Actor, Activity; held by pointer, in the /val variant by value, in the /near variant with ids that differ only in their query, port or last path segment, in the /opaque variant with URIs that have no authority: urn:, acct:, did:, mailto:, tag:, and in the /rich0-4 variants with members of all 13 object types holding every property their type has, pages also nested in an object's replies): every history of Append(1 or 2 items)/Remove/Contains " +
+	r.Rule("histories over a pool of items with pairwise non-equivalent ids in mixed shapes (IRI, Object, Actor, Activity; held by pointer, in the /val variant by value, in the /near variant with ids that differ only in their query, port or last path segment, in the /opaque variant with URIs that have no authority: urn:, acct:, did:, mailto:, tag:, and in the /rich0-4 variants with members of all 13 object types holding every property their type has, pages also nested in an object's replies, and in the /twin0-12 variants with six members of one type that hold the same in every property and differ in their ids only): every history of Append(1 or 2 items)/Remove/Contains " +
 		"up to the length bound over a 3-item pool for each of the 6 containers (Remove through ToItemCollection(container); not offered for IRIs whose item-list view is a copy), then random " +
 		"histories over a 6-item pool; after every step Count(), Collection() order and Contains() of every pool item are compared with a reference ordered set. " +
 		"non-trivial = a Remove after >= 2 appended items or a re-Append of an item seen before; distinct by container + op sequence")
@@ -293,7 +316,7 @@ func TestC13(t *testing.T) {
 			if variant != "" && !r.Thorough() {
 				maxLen--
 			}
-			if strings.HasPrefix(variant, "rich") {
+			if strings.HasPrefix(variant, "rich") || strings.HasPrefix(variant, "twin") {
 				maxLen-- // what these pools add shows in the first steps (a member that is not equal to itself, or equal to another)
 			}
 			tag := kind
